@@ -110,7 +110,7 @@ var cexMode = false
 // lastPredicted: result values predicted by the model of the last successful counterexample search
 var lastPredicted []string
 
-const cexUnroll = 12
+var cexUnroll = 12
 
 func searchConcreteModel(P *Program, fr *FuncResult, s *SiteResult) (model map[string]string) {
 	lastPredicted = nil
